@@ -1,0 +1,16 @@
+//go:build verif
+
+package ast
+
+// Ghost (specification-only) types for govc. They are never instantiated.
+
+const ghostInf = 1 << 20
+
+// ghostReader is the model of a ybase.Reader: the runes of the input, how many there are, and how many have been
+// consumed. It is defined by the (assumed) contracts of the Reader methods in verif_contracts.go, which restate
+// ybase's source; read errors other than end of input are not modelled.
+type ghostReader struct {
+	Pos  int
+	Len  int
+	Text [ghostInf]rune
+}
